@@ -47,3 +47,28 @@ package segread
 //@   ensures [merge-float-int] implies(runningSegStat != nil && currSegStat != nil && old(currSegStat.IsNumeric) && old(currSegStat.NumStats.Sum.Ntype) != sutils.SS_DT_FLOAT && old(runningSegStat.NumStats.Sum.Ntype) == sutils.SS_DT_FLOAT, result1 == nil && result0.Ntype == sutils.SS_DT_FLOAT && feq(result0.FloatVal, old(runningSegStat.NumStats.Sum.FloatVal) + float64(old(currSegStat.NumStats.Sum.IntgrVal))))
 //@   safe
 //@ end
+
+// ---- timestamp column decoder (C01 round trip, C18 no panic on any bytes) ----
+// No precondition on rawRec: it is a file section.  On success every output
+// is lowTs + the little-endian offset of its record (the inverse of
+// writer.(*WipBlock).encodeTimestamps).
+//@ func convertRawRecordsToTimestamps
+//@   props C01 C18
+//@   ensures [ts8] implies(result1 == nil && len(rawRec) >= 10 && rawRec[1] == 1, len(result0) >= int(numRecs) && forall(k, 0, int(numRecs), result0[k] == uint64(rawRec[10+k]) + le64(rawRec[2:10])))
+//@   ensures [ts16] implies(result1 == nil && len(rawRec) >= 10 && rawRec[1] == 2, len(result0) >= int(numRecs) && forall(k, 0, int(numRecs), result0[k] == uint64(le16(rawRec[10+2*k:])) + le64(rawRec[2:10])))
+//@   ensures [ts32] implies(result1 == nil && len(rawRec) >= 10 && rawRec[1] == 3, len(result0) >= int(numRecs) && forall(k, 0, int(numRecs), result0[k] == uint64(le32(rawRec[10+4*k:])) + le64(rawRec[2:10])))
+//@   ensures [ts64] implies(result1 == nil && len(rawRec) >= 10 && rawRec[1] == 4, len(result0) >= int(numRecs) && forall(k, 0, int(numRecs), result0[k] == le64(rawRec[10+8*k:]) + le64(rawRec[2:10])))
+//@   safe
+//@   loop 1:
+//@     invariant oPtr == 10 + uint32(i) && i <= numValidRecs && numValidRecs <= numRecs && int(numRecs) <= len(bufToUse) && int(numValidRecs) <= len(rawRec) - 10 && len(rawRec) >= 10
+//@     invariant forall(k, 0, int(i), bufToUse[k] == uint64(rawRec[10+k]) + lowTs)
+//@   loop 2:
+//@     invariant oPtr == 10 + 2*uint32(i) && i <= numValidRecs && numValidRecs <= numRecs && int(numRecs) <= len(bufToUse) && 2*int(numValidRecs) <= len(rawRec) - 10 && len(rawRec) >= 10
+//@     invariant forall(k, 0, int(i), bufToUse[k] == uint64(le16(rawRec[10+2*k:])) + lowTs)
+//@   loop 3:
+//@     invariant oPtr == 10 + 4*uint32(i) && i <= numValidRecs && numValidRecs <= numRecs && int(numRecs) <= len(bufToUse) && 4*int(numValidRecs) <= len(rawRec) - 10 && len(rawRec) >= 10
+//@     invariant forall(k, 0, int(i), bufToUse[k] == uint64(le32(rawRec[10+4*k:])) + lowTs)
+//@   loop 4:
+//@     invariant oPtr == 10 + 8*uint32(i) && i <= numValidRecs && numValidRecs <= numRecs && int(numRecs) <= len(bufToUse) && 8*int(numValidRecs) <= len(rawRec) - 10 && len(rawRec) >= 10
+//@     invariant forall(k, 0, int(i), bufToUse[k] == le64(rawRec[10+8*k:]) + lowTs)
+//@ end
